@@ -35,8 +35,8 @@ func runC01(e *Env) {
 	r.Rule("C01.R4", "flows", "encoders never extend the destination slice", 6)
 	r.Rule("C01.R5", "paths+absint", "validation dominates the first write; validators accept exactly the legal range", 6)
 	if e.want("C01.R1") {
-		c01OptionClasses(e)
-		c01StreamLength(e)
+		c01OptionClasses(e, "C01.R1")
+		c01StreamLength(e, "C01.R1")
 	}
 	if e.want("C01.R2") {
 		c01Layouts(e)
@@ -57,8 +57,7 @@ func runC01(e *Env) {
 func bigI(x int64) *big.Int { return big.NewInt(x) }
 
 // c01OptionClasses: extendOpt / marshalOptionHeaderExt / parseExtOpt per class.
-func c01OptionClasses(e *Env) {
-	rule := "C01.R1"
+func c01OptionClasses(e *Env, rule string) {
 	ext := e.fn(rule, "message.extendOpt")
 	mar := e.fn(rule, "message.marshalOptionHeaderExt")
 	par := e.fn(rule, "message.parseExtOpt")
@@ -201,8 +200,7 @@ func c01OptionClasses(e *Env) {
 }
 
 // c01StreamLength: getHeader(n) → bytes → DecodeHeader gives MessageLength = total frame size, Length = header size.
-func c01StreamLength(e *Env) {
-	rule := "C01.R1"
+func c01StreamLength(e *Env, rule string) {
 	gh := e.fn(rule, "tcp/coder.getHeader")
 	dh := e.fn(rule, "tcp/coder.Coder.DecodeHeader")
 	if gh == nil || dh == nil {
